@@ -719,7 +719,9 @@ def run(idx, rep, tier):
     rep.floor('C04.R12', 'known_hosts lookups', len(_calls), 1)
     for _n, _c in _calls:
         _a = _c.args[2] if len(_c.args) > 2 else None
-        _ok = _a is not None and 'self._host_key_alias' in names_read(_a)
+        from ..flow import depends_on as _dep12
+        _ok = _a is not None and 'self._host_key_alias' in _dep12(
+            k.cfg(_fi), k.rd(_fi), _n.id, _a)
         rep.check(_ok, 'C04.R12',
                   key(_fi, 'alias lookup ignores the address'),
                   'address argument depends on self._host_key_alias',
